@@ -78,7 +78,8 @@ def render_field_ctor(f):
         if sz[0] == "marker":
             args = ["until_marker=%r" % sz[1]]
         elif sz[0] == "regex":
-            args = ["until_marker=re.compile(%r)" % sz[1]]
+            # optional third element: compile flags (an int, e.g. re.I)
+            args = ["until_marker=re.compile(%r%s)" % (sz[1], (", %d" % sz[2]) if len(sz) > 2 and sz[2] else "")]
         else:
             args = [render_spec(sz)]
         if f.get("incl"):
@@ -622,7 +623,7 @@ class Parse:
                 self.reads.append((path, cur, len(raw), "data"))
                 self.regex_end_touch = True
                 return len(raw)
-            mt = re.compile(pat).search(window)
+            mt = re.compile(pat, sz[2] if len(sz) > 2 else 0).search(window)
             if not mt:
                 raise self.err("delimiter", "regex not found")
             if cur + mt.end() >= limit:
